@@ -191,7 +191,7 @@ theorem block_lt (s k : Nat) : (2 ^ s - 1) * 2 ^ k < 2 ^ (k + s) := by
   rw [Nat.pow_add, Nat.mul_comm (2 ^ k)]
   exact Nat.mul_lt_mul_of_pos_right (by omega) (Nat.two_pow_pos k)
 
-theorem bitsBelow_block (s k n : Nat) :
+theorem bitsBelow_block_qr (s k n : Nat) :
     bitsBelow ((2 ^ s - 1) * 2 ^ k) n = (List.range (min s (n - k))).map (fun i => 2 ^ (k + i)) := by
   induction n with
   | zero => simp [bitsBelow]
@@ -211,11 +211,11 @@ theorem bitsBelow_block (s k n : Nat) :
       simp [h1, e1, e2]
 
 /-- the bits of a contiguous block, ascending -/
-theorem bitsIterList_block (s k : Nat) (h : k + s ≤ 64) :
+theorem bitsIterList_block_qr (s k : Nat) (h : k + s ≤ 64) :
     bitsIterList ((2 ^ s - 1) * 2 ^ k) = (List.range s).map (fun i => 2 ^ (k + i)) := by
   have hlt : (2 ^ s - 1) * 2 ^ k < 2 ^ 64 :=
     Nat.lt_of_lt_of_le (block_lt s k) (Nat.pow_le_pow_right (by decide) h)
-  rw [bitsIterList_eq_bitsOf _ hlt, bitsOf, bitsBelow_block]
+  rw [bitsIterList_eq_bitsOf _ hlt, bitsOf, bitsBelow_block_qr]
   have : min s (W - k) = s := by unfold W; omega
   rw [this]
 
@@ -264,7 +264,7 @@ theorem Layout.getIdxL {l : List String} {decls : List Decl} (h : Layout l decls
     · rename_i hne
       obtain ⟨dc, hf, hmask, hle, hpos⟩ := h.mask a hne
       have hsm := h.small
-      rw [hmask, bitsIterList_block _ _ (by omega)] at hm
+      rw [hmask, bitsIterList_block_qr _ _ (by omega)] at hm
       by_cases hi : i < dc.size
       · rw [List.getElem?_map, List.getElem?_range hi] at hm
         simp only [Option.map_some, Except.ok.injEq] at hm
@@ -442,14 +442,14 @@ theorem storeStep_xor_self (v : Nat) (c : CReg) (a b : Nat) :
     simp [this, h']
 
 /-- a list of distinct single-bit masks below `2^64`, ascending -/
-def BitList (l : List Nat) : Prop := l.Pairwise (· < ·) ∧ ∀ y ∈ l, ∃ j, j < 64 ∧ y = 2 ^ j
+def WordBitList (l : List Nat) : Prop := l.Pairwise (· < ·) ∧ ∀ y ∈ l, ∃ j, j < 64 ∧ y = 2 ^ j
 
-theorem bitList_bitsOf (m : Nat) : BitList (bitsOf m) :=
+theorem wordBitList_bitsOf (m : Nat) : WordBitList (bitsOf m) :=
   ⟨bitsOf_pairwise_lt m, fun y hy => by
     obtain ⟨i, hi, rfl, _⟩ := (mem_bitsOf m y).mp hy; exact ⟨i, hi, rfl⟩⟩
 
 theorem foldl_storeStep_pair (mOp : MeasureOp) (v a b : Nat) (l1 l2 : List Nat) (c : CReg)
-    (h2 : BitList l2) (hmem : (2 ^ a, 2 ^ b) ∈ l1.zip l2) :
+    (h2 : WordBitList l2) (hmem : (2 ^ a, 2 ^ b) ∈ l1.zip l2) :
     ((l1.zip l2).foldl (storeStep mOp v) c).value.testBit b =
       match mOp with
       | .set => v.testBit a
@@ -461,7 +461,7 @@ theorem foldl_storeStep_pair (mOp : MeasureOp) (v a b : Nat) (l1 l2 : List Nat) 
     | nil => simp at hmem
     | cons y ys =>
       obtain ⟨hpw, hall⟩ := h2
-      have hys : BitList ys := ⟨(List.pairwise_cons.mp hpw).2, fun z hz => hall z (List.mem_cons_of_mem _ hz)⟩
+      have hys : WordBitList ys := ⟨(List.pairwise_cons.mp hpw).2, fun z hz => hall z (List.mem_cons_of_mem _ hz)⟩
       rw [List.zip_cons_cons, List.foldl_cons]
       rw [List.zip_cons_cons, List.mem_cons] at hmem
       rcases hmem with heq | hmem
@@ -515,9 +515,9 @@ theorem storeBits_bits (mOp : MeasureOp) (c : CReg) (v qArg cArg : Nat)
   · intro a b hmem
     constructor
     · rintro rfl
-      exact foldl_storeStep_pair .set v a b _ _ c (bitList_bitsOf cArg) hmem
+      exact foldl_storeStep_pair .set v a b _ _ c (wordBitList_bitsOf cArg) hmem
     · rintro rfl
-      exact foldl_storeStep_pair .xor v a b _ _ c (bitList_bitsOf cArg) hmem
+      exact foldl_storeStep_pair .xor v a b _ _ c (wordBitList_bitsOf cArg) hmem
 
 /-! ### `get_by_mask` gathers the selected bits -/
 
@@ -762,7 +762,7 @@ theorem Inv.sync_self {NC : Nat} {d : Interp R} {st : RunSt R} {rs : RefState R}
   simp only at h1 h2 h3
   simp only [RefState.sync, h1, h2, h3]
 
-theorem checkRegSize_ok {a : String} {n : Nat} (h : checkRegSize a n = .ok ()) : n < 64 := by
+theorem checkRegSize_ok_qr {a : String} {n : Nat} (h : checkRegSize a n = .ok ()) : n < 64 := by
   unfold checkRegSize at h
   split at h
   · cases h
@@ -820,7 +820,7 @@ theorem sim_step {NC : Nat} {d : Interp R} {st : RunSt R} {rs : RefState R} {n :
     · intro st' hst'
       simp only [Delta.events, runEvs_nil, Option.some.injEq] at hst'
       subst hst'
-      have hlen := checkRegSize_ok hsz
+      have hlen := checkRegSize_ok_qr hsz
       exact ⟨rfl, rfl, hinv.mOp, rfl, hinv.macros,
         hinv.lq.declare a k hpos hnq (by omega), hinv.lc, hinv.cmask⟩
   | creg a k =>
@@ -837,7 +837,7 @@ theorem sim_step {NC : Nat} {d : Interp R} {st : RunSt R} {rs : RefState R} {n :
     · intro st' hst'
       simp only [Delta.events, runEvs_nil, Option.some.injEq] at hst'
       subst hst'
-      have hlen := checkRegSize_ok hsz
+      have hlen := checkRegSize_ok_qr hsz
       exact ⟨rfl, rfl, hinv.mOp, rfl, hinv.macros, hinv.lq,
         hinv.lc.declare a k hpos hnc (by omega), hinv.cmask⟩
   | barrier =>
